@@ -2912,6 +2912,8 @@ status_t MessageField :: Unflatten(DataUnflattener & unflat)
    _state = FIELD_STATE_EMPTY;  // semi-paranoia
    SetInlineItemToNull();       // ditto
 
+   if ((_typeCode == B_POINTER_TYPE)||(_typeCode == B_TAG_TYPE)) return B_UNIMPLEMENTED;  // these types are never serialized, so a well-behaved peer will never send them
+
    const uint32 numItemsInBuffer = GetNumItemsInFlattenedBuffer(unflat.GetCurrentReadPointer(), unflat.GetNumBytesAvailable());
    if (numItemsInBuffer == 1) return SingleUnflatten(unflat);
    else
